@@ -619,9 +619,46 @@ Definition shape_part (f : h5file) (n_obs n_samp : Z) : result (list msg) :=
   | _, _ => RErr E_TYPE              (* a message is appended, then len(None) raises *)
   end.
 
-(* _validate_hdf5, 119-241 with format_version = '2.1' (the default of run).
-   Result: (valid_table, report lines); every report line clears valid_table. *)
-Definition validate_hdf5_report (f : h5file) : result (bool * list msg) :=
+Definition HMSG_WARN20 := 116.      (* "WARNING: 2.0 is not actively supported!": a line that does not clear valid_table *)
+
+(* _valid_hdf5_metadata_v200, 295-309: json.loads of the first element of the "metadata"
+   dataset of each axis, when there is one.  A text dataset is E_UNMODELLED (its content would
+   have to be parsed); everything else raises or passes. *)
+Definition v200_axis (f : h5file) (ax : string) : result (list msg) :=
+  match hget (h_root f) (K ax) with
+  | None => RErr E_KEY
+  | Some (HGroup ch) =>
+      match hget ch (K "metadata") with
+      | None => ROk []
+      | Some (HGroup _) => RErr E_TYPE                  (* group[0] *)
+      | Some (HInts (_ :: _)) | Some (HFlts (_ :: _)) => RErr E_TYPE   (* json.loads of a number *)
+      | Some _ => RErr E_UNMODELLED
+      end
+  | Some _ => RErr E_ATTR
+  end.
+Definition hv_metadata_v200 (f : h5file) : result (list msg) :=
+  o <- v200_axis f "observation" ;;
+  match o with [] => v200_axis f "sample" | _ => ROk o end.
+
+(* the version the caller asked for, as _validate_hdf5 distinguishes it: '2.0' / '2.0.0', or anything else *)
+Inductive hver := HV20 | HV21.
+
+(* 216-239: (lines that do not clear valid_table, lines that do) *)
+Definition version_part (ver : hver) (f : h5file) : result (list msg * list msg) :=
+  match aget (h_attrs f) (K "format-version") with
+  | None => ROk ([], [])
+  | Some (AInts l) =>
+      match ver with
+      | HV21 => if list_eqb Z.eqb l [2; 1] then e <- hv_metadata_v210 f ;; ROk ([], e)
+                else ROk ([], [[HMSG_VERSION]])
+      | HV20 => if list_eqb Z.eqb l [2; 0] then e <- hv_metadata_v200 f ;; ROk ([[HMSG_WARN20]], e)
+                else ROk ([], [[HMSG_VERSION]])
+      end
+  | Some _ => RErr E_UNMODELLED
+  end.
+
+(* _validate_hdf5, 119-241.  Result: (valid_table, report lines). *)
+Definition validate_hdf5_report_as (ver : hver) (f : h5file) : result (bool * list msg) :=
   a <- run_attrs f H_REQUIRED_ATTRS 0 ;;
   let g := missing_paths f HMSG_GROUP H_REQUIRED_GROUPS 0 in
   let d := missing_paths f HMSG_DATASET H_REQUIRED_DATASETS 0 in
@@ -635,13 +672,51 @@ Definition validate_hdf5_report (f : h5file) : result (bool * list msg) :=
        | Some (AInt _) | Some (AFlt _) => RErr E_TYPE
        | Some (AStr _) => RErr E_UNMODELLED
        end ;;
-  v <- match aget (h_attrs f) (K "format-version") with
-       | None => ROk []
-       | Some (AInts l) => if list_eqb Z.eqb l [2; 1] then hv_metadata_v210 f else ROk [[HMSG_VERSION]]
-       | Some _ => RErr E_UNMODELLED
-       end ;;
-  let lines := a ++ g ++ d ++ i0 ++ i1 ++ s ++ v in
-  ROk (match lines with [] => true | _ => false end, lines).
+  v <- version_part ver f ;;
+  let decisive := a ++ g ++ d ++ i0 ++ i1 ++ s ++ snd v in
+  ROk (match decisive with [] => true | _ => false end, a ++ g ++ d ++ i0 ++ i1 ++ s ++ fst v ++ snd v).
 
-Definition validate_hdf5 (f : h5file) : bool :=
-  match validate_hdf5_report f with ROk (true, _) => true | _ => false end.
+Definition validate_hdf5_as (ver : hver) (f : h5file) : bool :=
+  match validate_hdf5_report_as ver f with ROk (true, _) => true | _ => false end.
+(* the default of run(): format_version None -> '2.1' *)
+Definition validate_hdf5_report := validate_hdf5_report_as HV21.
+Definition validate_hdf5 := validate_hdf5_as HV21.
+
+(* ------------------------------------------------------------------ run(): the requested version *)
+(* table_validator.py:79-94.  int() is modelled for ASCII digit strings (Python also accepts
+   surrounding blanks, a sign, underscores). *)
+Fixpoint split_dot (s cur : str) : list str :=
+  match s with
+  | [] => [rev cur]
+  | c :: t => if c =? 46 then rev cur :: split_dot t [] else split_dot t (c :: cur)
+  end.
+Definition py_int (s : str) : result Z :=
+  match s with
+  | [] => RErr E_VALUE
+  | _ => if all_digits s then ROk (digits_val s) else RErr E_VALUE
+  end.
+Definition is_none_text (fv : option str) : bool :=
+  match fv with None => true | Some s => str_eqb s (K "None") end.
+
+Definition run_version_hdf5 (fv : option str) : result hver :=
+  if is_none_text fv then ROk HV21 else
+  match fv with
+  | None => ROk HV21
+  | Some s =>
+      comps <- mapM py_int (split_dot s []) ;;
+      if existsb (list_eqb Z.eqb comps) HDF5_VERSIONS
+      then ROk (if str_mem s [K "2.0"; K "2.0.0"] then HV20 else HV21)
+      else RErr E_VALUE
+  end.
+Definition run_version_json (fv : option str) : result unit :=
+  if is_none_text fv then ROk tt else
+  match fv with
+  | Some s => if str_eqb s (K "1.0.0") then ROk tt else RErr E_VALUE
+  | None => ROk tt
+  end.
+
+(* run() on an HDF5 file / on a JSON document *)
+Definition run_hdf5 (fv : option str) (f : h5file) : result (bool * list msg) :=
+  ver <- run_version_hdf5 fv ;; validate_hdf5_report_as ver f.
+Definition run_json (fv : option str) (j : json) : result (list msg) :=
+  _ <- run_version_json fv ;; validate_json_report j.
